@@ -147,7 +147,8 @@ def run(tier, seed, n=None):
     ck = Check(PROP, tier, seed)
     ck.trusted += [
         "translator tools/translate (pytrans + units_c20: element-wise reading of the numpy-vectorised "
-        "_vector2xy, xy2vector, from_polar, to_polar, azimuth/polar/radial incl. the in-place snap of azimuth)",
+        "_vector2xy, xy2vector, from_polar, to_polar, azimuth/polar/radial incl. the rounding of copies of x, y "
+        "in azimuth; structural check of `v = v.unit` + hemisphere selection in vector2xy / vector2xy_split)",
         "FInst float evaluator (correspondence sensitivity only)",
         "np.histogram2d bin rule (searchsorted right, last bin closed) and scipy.ndimage.gaussian_filter "
         "(correlation with the normalised kernel, wrap/reflect index extension): modelled by hand in "
@@ -157,7 +158,7 @@ def run(tier, seed, n=None):
     ]
     ck.assumptions += [
         "theorems are over exact reals; float rounding is not modelled",
-        "tolerances 1e-9 (hemisphere test) and 1e-8 (np.isclose in Vector3d.azimuth) are modelled as exact comparisons",
+        "tolerances 1e-9 (hemisphere test on the unit vector) and 1e-8 |v| (np.isclose(atol=) in Vector3d.azimuth) are modelled as exact comparisons",
     ]
     if not ck.step_sanity():
         return ck.finish()
@@ -176,7 +177,8 @@ def run(tier, seed, n=None):
         ck.failure(f["sig"], f["what"], f["replay"])
     ck.cov["rule"] = (
         "vectors drawn from the strata unit / pole / equator / near-equator (|z| around the 1e-9 tolerance) / "
-        "non-unit (1e-6..1e4) / shorter than 1e-9 / coordinate axes / x or y in the 1e-8 snapping band / zero, "
+        "non-unit (1e-6..1e4) / shorter than 1e-9 / coordinate axes / x or y below 1e-8 (unit vectors: inside the "
+        "rounding band of azimuth; short vectors: outside it) / zero, "
         "both projection poles, plane points inside / on / outside the unit circle, degrees and radians; "
         "pole densities over 7-9 resolutions x 6 smoothing widths x both hemispheres x 4 weight kinds x "
         "mrd on/off, compared bin by bin with the Coq model; folded densities for all 38 point groups "
